@@ -39,7 +39,7 @@ HasAt(s, i, c) == i <= Len(s) /\ s[i] = c
 \*                             lenient: the longest prefix strtod converts: [+-]? (digits [. digits*]? | . digits) exponent?
 \* (cJSON only hands a token to strtod when it starts with '-' or a digit, and copies at most 63 bytes)
 NumberEnd(s, i, d) ==
-  LET j0 == IF HasAt(s, i, 45) THEN i + 1 ELSE i
+  LET j0 == IF HasAt(s, i, 45) \/ (d # "rfc" /\ HasAt(s, i, 43)) THEN i + 1 ELSE i
       d1 == Digits(s, j0)
       intOK == IF d = "rfc" THEN d1 >= 1 /\ (d1 = 1 \/ s[j0] # 48) ELSE TRUE
       j1 == j0 + d1
@@ -103,7 +103,7 @@ G(s, i, d, depth) ==
   ELSE IF Lit(s, i, <<116, 114, 117, 101>>) THEN Ok(VTrue, i + 4)
   ELSE IF Lit(s, i, <<102, 97, 108, 115, 101>>) THEN Ok(VFalse, i + 5)
   ELSE IF s[i] = 34 THEN LET r == StrBody(s, i + 1, d, <<>>) IN IF r.ok THEN Ok(VStr(r.b), r.nx) ELSE Fail
-  ELSE IF s[i] = 45 \/ IsDigit(s[i]) THEN
+  ELSE IF s[i] = 45 \/ IsDigit(s[i]) \/ (d # "rfc" /\ s[i] \in {43, 46}) THEN       \* lenient: whatever spelling strtod converts, also "+1" and ".5"
        LET e == NumberEnd(s, i, d) IN IF e = 0 THEN Fail ELSE Ok(VNumLex(SubSeq(s, i, e - 1)), e)
   ELSE IF s[i] = 91 THEN
        IF depth >= MaxDepth THEN Fail
